@@ -1,6 +1,6 @@
 (* C05  A send reports success iff the server accepted the message; never twice.  Statements only. *)
 From LV Require Import Base.Bytes Base.Res Model.Codec Model.Response Model.ServerInfo Model.Client
-  Proofs.ClientProofs.
+  Proofs.ClientProofs Model.Auth Model.Tls.
 
 (* The whole of send(), for every envelope, message, connection state and every peer script
    (the script is part of the state `s` and is universally quantified):
@@ -46,6 +46,24 @@ Example C05_example :
   end.
 Proof. cbn. repeat split; try reflexivity. eexists; eexists. repeat split; reflexivity. Qed.
 
+(* the transport around send(): for every TLS mode, peer, configuration, credentials and script, the verdict of a
+   send_raw through a transport that keeps no connection is the verdict of send() on the connection that was
+   established - the QUIT that follows an accepted message is sent, but nothing that happens to it (refusal, garbage,
+   end of stream, timeout) can turn the success into an error or the error into a success; if no connection could be
+   established the error is the connection's and nothing of the message was sent *)
+Theorem C05_goodbye_cannot_change_the_verdict : forall mode hello pt p c sc env msg t,
+  connection mode hello pt p c sc = (Ok tt, t) ->
+  fst (tsend mode hello pt p c sc env msg) = fst (send env msg (t_sess t)).
+Proof.
+  intros mode hello pt p c sc env msg t H. unfold tsend. rewrite H.
+  destruct (send env msg (t_sess t)) as [r s']. reflexivity.
+Qed.
+Theorem C05_no_connection_no_send : forall mode hello pt p c sc env msg e t,
+  connection mode hello pt p c sc = (Err e, t) -> tsend mode hello pt p c sc env msg = (Err e, t).
+Proof. intros mode hello pt p c sc env msg e t H. unfold tsend. rewrite H. reflexivity. Qed.
+
 Print Assumptions C05_send.
 Print Assumptions C05_ok_is_positive_reply.
 Print Assumptions C05_abort_marks_broken.
+Print Assumptions C05_goodbye_cannot_change_the_verdict.
+Print Assumptions C05_no_connection_no_send.
